@@ -521,10 +521,10 @@ class StatsAdapter(_Base):
     return {"con": list(self.ev_con), "nexus": list(self.ev_nexus), "free": []}
 
   def _note_part(self, k, t, more):
-    """For failure signatures only: which parts of replies of NOT multipart-capable types (vendor /
-    unknown type / desc or aggregate with MORE) arrived while request k's reply was being assembled."""
+    """For failure signatures only: which replies of NOT multipart-capable types (vendor / unknown type,
+    split or not; desc or aggregate split with MORE) arrived while request k's reply was being assembled."""
     self.cur_since = sorted(self.since.get(k, ()))
-    if t not in MULTI and (more or k in self.odd_open):
+    if t in OPAQUE or (t not in MULTI and (more or k in self.odd_open)):
       for j in self.since:
         if j != k:
           self.since[j].add(t)
@@ -588,9 +588,9 @@ class StatsAdapter(_Base):
       if st["args"].get("raw", "none") != "none":
         sig["raw_listeners"] = st["args"]["raw"]
       if self.cur_since:
-        # parts of a split reply of a NOT multipart-capable type (vendor / unknown / desc / aggregate + MORE)
-        # arrived while this request's reply was being assembled: one class, whatever else was going on
-        sig["interleaved_with"] = "split_reply_of_non_multipart_type"
+        # a vendor / unknown-type reply, or a part of a desc / aggregate reply split with MORE, arrived
+        # while this request's reply was being assembled: one class, whatever else was going on
+        sig["interleaved_with"] = "reply_of_non_multipart_type"
         sig.pop("raw_listeners", None)
     else:
       sig["kind"] = st["args"]["kind"]
